@@ -1,9 +1,9 @@
 SPECIFICATION Spec
 CONSTANTS
-  Sessions <- S3
+  Sessions <- P3
   Graphs <- Iso3
   Depths <- D13
-  Skips <- AllSkips3
+  Skips <- SmallSkips3
   Thoroughs <- BothModes
   KeepHist = FALSE
   Dev_M1_DepthOffByOne = FALSE
